@@ -326,6 +326,20 @@ def zcmd(r):
     return [b"UNKNOWNCMD", b"x"]
 
 
+def makes_expired_key(name, args):
+    """time-to-live <= 0: leaves (on one path or the other) an entry whose deadline has already passed"""
+    if name in ("EXPIRE", "PEXPIRE") and len(args) == 3:
+        v = intarg(args[2])
+        return v is not None and v <= 0
+    if name in ("SETEX", "PSETEX") and len(args) == 4:
+        v = intarg(args[2])
+        return v is not None and v <= 0
+    if name == "SET":
+        o = [x.upper() for x in args[3:]]
+        return any(x in (b"EX", b"PX") and i + 1 < len(o) and (intarg(o[i + 1]) is not None and intarg(o[i + 1]) <= 0) for i, x in enumerate(o))
+    return False
+
+
 def gen_command(r, g):
     """one command of the data-type catalogue (never one of NEVER); returns (args, shape tag)"""
     while True:
@@ -340,6 +354,9 @@ def gen_command(r, g):
             continue
         if name == "SETRANGE" and len(args) > 2 and (intarg(args[2]) or 0) > 10 ** 6:
             continue        # huge offsets: allocation behaviour is C06's subject
+        if makes_expired_key(name, args):
+            continue        # a key that is expired but not yet swept is removed by each twin's sweeper at its own moment (C02's subject);
+                            # these forms are exercised one by one in CORPUS, each followed by a fresh state
         return args, shape
 
 
@@ -445,6 +462,8 @@ def dump(c):
         else:
             v = "type-" + t
         ttl = c.cmd("PTTL", k)
+        if ttl == ("i", 0) or ttl == ("i", -2):
+            continue        # deadline passed, not swept yet (or swept during this dump): absent, as every reader should see it (C02)
         out.append("%s %s %s" % (hx(k), v, "ttl" if ttl[0] == "i" and ttl[1] >= 0 else "nottl"))
     return " ; ".join(out) if out else "."
 
@@ -523,6 +542,14 @@ class Checker:
                 ccode = cb
             if ib is not None and isp is not None and ib >= 0 and abs(ib - isp) <= WINDOW[name]:
                 cspec = cb
+        if variant == "len" and cb[0] == "i" and cb != ccode and ra[0] == "a" and self.quirks["nilBulkIsNil"] \
+                and any(x[0] in ("nb", "na") for x in ra[1]):
+            # `#t` of a table with holes (nil bulks became nil) may be ANY border (Lua 5.1 manual 2.5.5); the model returns the first
+            n, xs = cb[1], ra[1]
+            hole = lambda i: i < 1 or i > len(xs) or xs[i - 1][0] in ("nb", "na")       # noqa: E731
+            if (n == 0 and hole(1)) or (n >= 1 and not hole(n) and hole(n + 1)):
+                ccode = cb
+                rep.count("twin.len-of-table-with-holes-any-border")
         det.update({"script_reply_B": show(cb), "code_predicts": show(ccode), "spec_prescribes": show(cspec), "tags": tags})
         kind = "err" if ra[0] == "e" else ra[0]
         rep.count("twin.%s.%s" % (name, kind))
@@ -722,7 +749,10 @@ def gen_program(r, g):
     elif k == 7:
         ret = ("wrap", i)
     elif k == 8:
-        ret = ("len", i)
+        # `#` of an array reply with nil elements is any border (unspecified): keep `len` away from MGET / HMGET
+        first = steps[i - 1][1][0]
+        nm = first[1].upper() if first[0] == "l" else b"?"
+        ret = ("len", i) if nm not in (b"MGET", b"HMGET", b"?") else ("res", i)
     elif k in (9, 10, 11):
         ret = ("all",)
     elif k == 12 and argv:
@@ -790,6 +820,10 @@ CORPUS = [
     (0, [[b"SET", b"k1", b"a"]], [b"SETEX", b"k1", b"0", b"b"], "raw"),
     (0, [[b"SET", b"k1", b"a"]], [b"EXPIRE", b"k1", b"-1"], "raw"),
     (0, [[b"SET", b"k1", b"a"]], [b"EXPIRE", b"k1", b"0"], "raw"),
+    (0, [[b"SET", b"k1", b"a"]], [b"PEXPIRE", b"k1", b"-5"], "raw"),
+    (0, [[b"SET", b"k1", b"a"]], [b"PEXPIRE", b"k1", b"0"], "ptype"),
+    (0, [[b"SET", b"k1", b"a"]], [b"PSETEX", b"k1", b"0", b"b"], "raw"),
+    (0, [[b"SET", b"k1", b"a"]], [b"SET", b"k1", b"b", b"PX", b"0"], "type"),
     (0, [], [b"DECRBY", b"miss", b"-9223372036854775808"], "raw"),
     (0, [[b"SET", b"k1", b"a"]], [b"FLUSHDB", b"extra"], "raw"),
     (0, [[b"SET", b"k1", b"a"]], [b"DBSIZE", b"extra"], "raw"),
@@ -1284,7 +1318,8 @@ def verdict(ck, ok, log, errs):
         det = ck.oracle_fail[0]
         rep.violation("C12 (%s): %s" % (det["layer"], det["why"]),
                       {"replay": det, "family": "lua", "more": [{k: d.get(k) for k in ("layer", "why", "cmd_text", "variant", "script", "script_reply_B", "server_reply", "spec_prescribes")}
-                                                               for d in ck.oracle_fail[1:8]], "lean_errors": errs[:5]})
+                                                               for d in ck.oracle_fail[1:8]], "lean_errors": errs[:5],
+                       "model_disagreements": ck.disagree[:5]})
     elif not ok:
         rep.violation("proof obligations of C12 no longer check against the regenerated tables", {"theorem_errors": errs[:10], "log_tail": log[-3000:]}, no_input=True)
     elif ck.disagree:
